@@ -17,7 +17,7 @@ class C19(diffprop.Spec):
     rule = ("pmath: every value within 3 of every power of two up to 2^63, -70..70, int extremes, plus random magnitudes; "
             "pool: random Get/Put histories (generic pool, pbytes, pbuffer) over 20 pool sizes with sizes/capacities drawn around "
             "powers of two, multiples of 1024, max, 0 and negatives; identity tracked by backing-array pointer. "
-            "non-trivial = pmath argument > 2, or a Get answered from the pool (fresh=0), or a Put of a non-class capacity; distinct by full line; concurrent stress: 8 goroutines x 6000 Get/Put over 7 size classes, counting double issues and buffers smaller than requested")
+            "non-trivial = pmath argument > 2, or a Get answered from the pool (fresh=0), or a Put of a non-class capacity; distinct by full line; concurrent stress: 8 goroutines x 6000 Get/Put over 7 size classes, counting double issues and buffers smaller than requested; every pbytes.Get is checked for sharing any byte of its capacity with a held buffer; four channel-recycle rounds (a queued channel recycles a batch of 2-4 packets of mixed classes, then 3 x Get of each size: distinct buffers of sufficient capacity)")
     assumptions = (
         "64-bit int (amd64); 32-bit platforms not modelled",
         "sync.Pool hands an item to at most one Get and may drop items (modelled as nondeterministic loss)",
